@@ -653,16 +653,19 @@ theorem cloneNode_res {allow : Bool} {rec : Nat → M Nat}
   rbind (RGoodAt.calm hI3 (calm_copyProps ns.props)) with pr s4 hI4 hf4 hq4
   rbind (RGoodAt.calm hI4 (calm_copyMeta ns.mstore)) with me s5 hI5 hf5 hq5
   rbind (RGoodAt.calm hI5 (calm_cloneOutputs ns.outputs 0)) with outs s6 hI6 hf6 hq6
-  rbind (allocNode_res _ hI6) with n' s8 hI8 hf8 hq8
+  rbind (RGoodAt.calm hI6 calm_getVm) with vm s7 hI7 hf7 hq7
+  rbind (RGoodAt.calm hI7 (Calm.ofSameHeap (m := checkSpecs allow ns vm)
+    (fun s => by rw [checkSpecs_state]; exact ⟨rfl, rfl⟩))) with u0 s7' hI7' hf7' hq7'
+  rbind (allocNode_res _ hI7') with n' s8 hI8 hf8 hq8
   rbind (RGoodAt.calm hI8 (calm_forM' (calm_setProducer n') outs)) with u s9 hI9 hf9 hq9
   obtain ⟨ns9, hns9, e9⟩ := hf9 n' _ hq8.1
   rbind (addUses_res n' ins 0 s9 hI9 ⟨ns9, hns9, fun j v hj => by rw [e9]; simpa using hj⟩)
     with u2 s10 hI10 hf10 hq10
   obtain ⟨x1, y1⟩ := hq1; obtain ⟨x2, y2⟩ := hq2; obtain ⟨x3, y3⟩ := hq3; obtain ⟨x4, y4⟩ := hq4
-  obtain ⟨x5, y5⟩ := hq5; obtain ⟨x6, y6⟩ := hq6; obtain ⟨x8, y8⟩ := hq8.2
+  obtain ⟨x5, y5⟩ := hq5; obtain ⟨x6, y6⟩ := hq6; obtain ⟨x7, y7⟩ := hq7; obtain ⟨x7', y7'⟩ := hq7'; obtain ⟨x8, y8⟩ := hq8.2
   obtain ⟨x9, y9⟩ := hq9
-  exact RGoodAt.pure hI10 ⟨x1 ++ x2 ++ x3 ++ x4 ++ x5 ++ x6 ++ x8 ++ x9,
-    by rw [hq10, y9, y8, y6, y5, y4, y3, y2, y1]; simp⟩
+  exact RGoodAt.pure hI10 ⟨x1 ++ x2 ++ x3 ++ x4 ++ x5 ++ x6 ++ x7 ++ x7' ++ x8 ++ x9,
+    by rw [hq10, y9, y8, y7', y7, y6, y5, y4, y3, y2, y1]; simp⟩
 
 theorem cloneGraphStep_res {allow : Bool} {rec : Nat → M Nat}
     (hrec : ∀ g s, RInv n0 s → RGoodAt n0 (rec g) s (fun _ s1 => ∃ ext, s1.created = s.created ++ ext))
